@@ -664,11 +664,12 @@ type Access struct {
 	excl   map[string]*Term // mutex -> held exclusively
 	shared map[string]*Term // mutex -> held (shared or exclusive)
 	site   string
+	desc   string
 }
 
 func (a *Act) record(p PtrV, write, atomic bool) {
 	in := a.in
-	if in.recTag == "" || in.inHook {
+	if in.recTag == "" || in.inHook || in.isHarnessFn(a.fn) {
 		return
 	}
 	excl, shared := map[string]*Term{}, map[string]*Term{}
@@ -679,7 +680,7 @@ func (a *Act) record(p PtrV, write, atomic bool) {
 	}
 	for _, al := range p.alts {
 		in.accesses = append(in.accesses, Access{tag: in.recTag, obj: al.obj, path: fmt.Sprint(al.path), write: write, atomic: atomic,
-			g: And(a.g, al.g), excl: excl, shared: shared, site: a.fn.Name()})
+			g: And(a.g, al.g), excl: excl, shared: shared, site: a.fn.String(), desc: a.curDesc})
 	}
 }
 
@@ -702,6 +703,32 @@ type Act struct {
 	block  *ssa.BasicBlock
 	depth  int
 	atomicOp bool
+	curDesc string
+}
+
+// descOf names the memory cell an address operand denotes (type.field), for race reports.
+func descOf(v ssa.Value) string {
+	switch x := v.(type) {
+	case *ssa.FieldAddr:
+		t := x.X.Type().Underlying().(*types.Pointer).Elem()
+		st := t.Underlying().(*types.Struct)
+		name := t.String()
+		if i := strings.LastIndex(name, "."); i >= 0 {
+			name = name[i+1:]
+		}
+		return name + "." + st.Field(x.Field).Name()
+	case *ssa.IndexAddr:
+		return descOf(x.X) + "[i]"
+	case *ssa.UnOp:
+		return descOf(x.X)
+	case *ssa.Global:
+		return "global " + x.Name()
+	case *ssa.Alloc:
+		return "local " + x.Comment
+	case *ssa.FreeVar:
+		return "captured " + x.Name()
+	}
+	return v.Type().String()
 }
 
 type deadEnd struct{}
@@ -1050,11 +1077,13 @@ func (a *Act) exec(instr ssa.Instruction) {
 	case *ssa.Alloc:
 		a.set(x, ptrTo(a.alloc(in.zeroVal(x.Type().(*types.Pointer).Elem()))))
 	case *ssa.Store:
+		a.curDesc = descOf(x.Addr)
 		a.store(a.get(x.Addr).(PtrV), a.get(x.Val))
 	case *ssa.UnOp:
 		v := a.get(x.X)
 		switch x.Op {
 		case token.MUL:
+			a.curDesc = descOf(x.X)
 			a.set(x, a.load(v.(PtrV)))
 		case token.NOT:
 			a.set(x, Not(v.(*Term)))
@@ -1089,6 +1118,12 @@ func (a *Act) exec(instr ssa.Instruction) {
 		fn, args := a.prepareCall(&x.Call)
 		a.defers = append(append([]deferred(nil), a.defers...), deferred{fn: fn, args: args})
 	case *ssa.Call:
+		if len(x.Call.Args) > 0 {
+			a.curDesc = descOf(x.Call.Args[0]) // atomic.*(addr, ...), delete(m, k), len(m)
+			if _, isMap := x.Call.Args[0].Type().Underlying().(*types.Map); isMap {
+				a.curDesc = "map " + a.curDesc
+			}
+		}
 		fn, args := a.prepareCall(&x.Call)
 		a.set(x, a.invoke(fn, args))
 	case *ssa.Go:
@@ -1131,12 +1166,15 @@ func (a *Act) exec(instr ssa.Instruction) {
 	case *ssa.Slice:
 		a.set(x, a.sliceOp(x))
 	case *ssa.Lookup:
+		a.curDesc = "map " + descOf(x.X)
 		a.set(x, a.lookup(x))
 	case *ssa.MapUpdate:
+		a.curDesc = "map " + descOf(x.Map)
 		m := a.get(x.Map).(MapV)
 		a.mayPanic(m.isNil(), "assignment to entry in nil map")
 		a.mapUpdate(m.obj, a.get(x.Key), a.get(x.Value))
 	case *ssa.Range:
+		a.curDesc = "map " + descOf(x.X)
 		m := a.get(x.X).(MapV)
 		n := 0
 		if m.obj != 0 {
@@ -1144,6 +1182,7 @@ func (a *Act) exec(instr ssa.Instruction) {
 		}
 		a.set(x, IterV{obj: a.alloc(IterData{m: m.obj, n: n, pos: BV(8, 0), nilG: m.isNil()})})
 	case *ssa.Next:
+		a.curDesc = "map " + descOf(x.Iter.(*ssa.Range).X)
 		a.set(x, a.next(x))
 	case *ssa.Select:
 		a.set(x, a.selectOp(x))
